@@ -1,6 +1,7 @@
 package gbnh
 
 import (
+	"fmt"
 	"strings"
 
 	"github.com/lightninglabs/lightning-node-connect/gbn/vrt"
@@ -53,6 +54,65 @@ var jobTable = map[string]jobSet{
 		},
 		quickS: 240, thoroughS: 1500,
 	},
+}
+
+// chunkProduct is the exhaustive canonical-schedule product for C14: every
+// chunk size x every sequence of up to maxMsgs messages with lengths 0..maxLen.
+func chunkProduct(chunks []int, maxLen, maxMsgs int) []string {
+	var out []string
+	var rec func(prefix []string)
+	for _, c := range chunks {
+		rec = func(prefix []string) {
+			if len(prefix) > 0 {
+				out = append(out, fmt.Sprintf("chunk/c=%d/N=3/lens=%s", c, strings.Join(prefix, ",")))
+			}
+			if len(prefix) == maxMsgs {
+				return
+			}
+			for l := 0; l <= maxLen; l++ {
+				rec(append(append([]string{}, prefix...), fmt.Sprint(l)))
+			}
+		}
+		rec(nil)
+	}
+	return out
+}
+
+func init() {
+	jobTable["C14"] = jobSet{
+		quick: []Job{
+			{Scenario: "chunk-product(c=0..4,len=0..8,msgs<=2)", Scenarios: chunkProduct([]int{0, 1, 2, 3, 4}, 8, 2), Budgets: bs(B(0, 0))},
+			{Scenario: "chunk/c=2/lens=0,1,2,3,5", Budgets: bs(B(1, 1), B(0, 2)), Split: 1},
+			{Scenario: "chunk/c=1000/lens=4000", Budgets: bs(B(0, 1)), Split: 1},
+			{Scenario: "chunkto/c=2/lens=5,3/rt=500ms", Budgets: bs(B(1, 1), B(0, 2)), Split: 1},
+			{Scenario: "chunkto/c=2/N=1/lens=5,3/st=700ms", Budgets: bs(B(1, 1), B(0, 2)), Split: 1},
+		},
+		thorough: []Job{
+			{Scenario: "chunk-product(c=0..4,len=0..12,msgs<=3)", Scenarios: chunkProduct([]int{0, 1, 2, 3, 4}, 12, 3), Budgets: bs(B(0, 0))},
+			{Scenario: "chunk/c=2/lens=0,1,2,3,5", Budgets: bs(B(2, 1), B(1, 2), B(0, 3)), Split: 2},
+			{Scenario: "chunk/c=3/lens=6,0,7", Budgets: bs(B(1, 1), B(0, 3)), Split: 2},
+			{Scenario: "chunk/c=1000/lens=4000,65535", Budgets: bs(B(1, 1), B(0, 2)), Split: 1},
+			{Scenario: "chunkto/c=2/lens=5,3/rt=500ms", Budgets: bs(B(2, 1), B(1, 2), B(0, 3)), Split: 2},
+			{Scenario: "chunkto/c=2/N=1/lens=5,3/st=700ms", Budgets: bs(B(2, 1), B(1, 2), B(0, 3)), Split: 2},
+		},
+		quickS: 240, thoroughS: 1200,
+	}
+	jobTable["C09"] = jobSet{
+		quick: []Job{
+			{Scenario: "fullwindow/N=1", Budgets: bs(B(1, 1), B(0, 2)), Split: 1},
+			{Scenario: "fullwindow/N=2", Budgets: bs(B(1, 1), B(0, 2)), Split: 1},
+			{Scenario: "fullwindow/N=3", Budgets: bs(B(1, 0), B(0, 1)), Split: 1},
+			{Scenario: "fullwindow/N=20", Budgets: bs(B(0, 0))},
+		},
+		thorough: []Job{
+			{Scenario: "fullwindow/N=1", Budgets: bs(B(2, 1), B(1, 2), B(0, 3)), Split: 2},
+			{Scenario: "fullwindow/N=2", Budgets: bs(B(2, 1), B(1, 2), B(0, 3)), Split: 2},
+			{Scenario: "fullwindow/N=3", Budgets: bs(B(1, 1), B(0, 2)), Split: 2},
+			{Scenario: "fullwindow/N=20", Budgets: bs(B(0, 1)), Split: 1},
+			{Scenario: "fullwindow/N=254/extra=1", Budgets: bs(B(0, 0))},
+		},
+		quickS: 240, thoroughS: 1200,
+	}
 }
 
 // jobsFor lists the explorations of a property at a tier and the wall-clock
